@@ -299,8 +299,9 @@ func TestCheck(t *testing.T) {
 	for k, v := range counts {
 		e.Set(k, v)
 	}
-	evals := counts["seq_pipelines"] + counts["two_stream_scenarios"] + counts["gated_pipelines"] + counts["free_pipelines"] +
-		counts["registry_calls"] + counts["bytepool_seq_cases"] + counts["bytepool_cycles"] + counts["calc_calls"]
+	// (the millions of cheap pool cycles and calc calls of the background load are reported separately, not counted here)
+	evals := counts["seq_pipelines"] + 2*counts["two_stream_scenarios"] + counts["gated_pipelines"] + counts["free_pipelines"] +
+		counts["registry_calls"] + counts["bytepool_seq_cases"]
 	e.Set("evaluations", evals)
 	e.Set("rule", "every case = one operation on the real code whose result is compared with the same operation run alone: "+
 		"(a) one Encrypt->Decrypt pipeline alone with every BufPool.Put overwriting the buffer with a poison pattern (2 ciphers x message lengths 0/1/100/65535/65536/65537 (+128K, 128K+1, 300K thorough) x 6 ways the header reaches readHeader (one read, 3 pieces, byte-wise, +1/+37/all payload bytes in the header's read) x key-wrap algorithms (ident, A256KW, A256CBC-NOPAD, A128CBC-NOPAD, RSA-OAEP-256 through kit/crypto; rotating in quick, all in thorough)), and the same without poison; "+
@@ -327,6 +328,18 @@ func TestCheck(t *testing.T) {
 	e.Set("traces_validated_against_impl", int64(b.Len()))
 	rejected := map[int]bool{}
 	perKey := map[string]int{}
+	// the replay kept per key is the first one reported: prefer the sequential child, then the shortest run
+	prio := map[string]int{"seq": 0, "gated": 1, "free": 2, "race-detector": 3}
+	sort.SliceStable(rej, func(i, j int) bool {
+		a, c := rej[i], rej[j]
+		if prio[origin[a.Trace]] != prio[origin[c.Trace]] {
+			return prio[origin[a.Trace]] < prio[origin[c.Trace]]
+		}
+		if la, lc := len(b.Trace(a.Trace)), len(b.Trace(c.Trace)); la != lc {
+			return la < lc
+		}
+		return a.Trace < c.Trace
+	})
 	for _, r := range rej {
 		rejected[r.Trace] = true
 		lines := b.TraceStrings(r.Trace)
